@@ -408,3 +408,20 @@ Proof.
   intros j Hjr u Hu. pose proof (zrange_forall _ 0 64 Hj j ltac:(lia)) as Hx. cbn beta zeta in Hx.
   fold u in Hx. destruct (off0 + osz <=? u) eqn:E; cbn in Hx; lia.
 Qed.
+
+(* cache_aligned_resource: with the representability test an accepted request is the true sum (no wrap-around), so the upstream block holds
+   the payload, the alignment slack and the header word; without the test a request near SIZE_MAX is forwarded as a tiny one *)
+Lemma car_guard_complete_proof bytes al cls s :
+  0 <= bytes < W64 -> 8 <= cls <= 4096 -> 1 <= al < 2 ^ 63 ->
+  car_request true bytes al cls = Some s ->
+  s = Z.max bytes 8 + Z.max al cls /\ s < W64 /\ bytes + 8 <= s.
+Proof.
+  intros Hb Hc Ha. unfold car_request. cbn [andb].
+  destruct (Z.ltb_spec (W64 - 1 - Z.max al cls) (Z.max bytes 8)) as [H|H]; [discriminate|].
+  intros E. inversion E; subst. unfold w64. unfold W64 in *.
+  assert (0 <= Z.max bytes 8 + Z.max al cls < 2 ^ 64) by lia.
+  rewrite Z.mod_small by lia. lia.
+Qed.
+Lemma car_no_guard_refuted_proof :
+  exists bytes s, 0 <= bytes < W64 /\ car_request false bytes 64 64 = Some s /\ s < bytes.
+Proof. exists (2 ^ 64 - 11), 53. vm_compute. repeat split; congruence. Qed.
